@@ -61,9 +61,8 @@ func statModeSources(v ssa.Value, seen map[ssa.Value]bool, out *[]ssa.CallInstru
 	}
 }
 
-func runC04ChmodType(c *Ctx) {
+func runC04ChmodType(c *Ctx, P string) {
 	p := c.P
-	const P = "C04"
 	c.rule(P, "chmod-type", "the mode handed to a backend Chmod takes its type bits from the node or an Lstat, never from a (link-following) Stat", 1)
 	ent, err := p.entrySet()
 	if err != nil {
